@@ -4,6 +4,7 @@ package flags
 
 import (
 	"strings"
+	"unicode/utf8"
 )
 
 const (
@@ -45,7 +46,19 @@ func stripOptionPrefix(optname string) (prefix string, name string, islong bool)
 func splitOption(prefix string, option string, islong bool) (string, string, *string) {
 	pos := strings.Index(option, "=")
 
-	if (islong && pos >= 0) || (!islong && pos == 1) {
+	if !islong {
+		// The name of a short option is its first character, which may be
+		// longer than one byte: the argument separator directly follows it.
+		_, n := utf8.DecodeRuneInString(option)
+
+		if n > 0 && n < len(option) && option[n] == '=' {
+			pos = n
+		} else {
+			pos = -1
+		}
+	}
+
+	if pos >= 0 {
 		rest := option[pos+1:]
 		return option[:pos], "=", &rest
 	}
